@@ -755,7 +755,7 @@ def _split_high_low(ax, c):
         return None
     high = {s_: k for s_, k in ax.co.items() if k % c == 0}
     low = {s_: k for s_, k in ax.co.items() if k % c != 0}
-    if not high:
+    if not high and not low:
         return None
     if not low and ax.c0 % c == 0:
         return Aff({s_: k // c for s_, k in high.items()}, ax.c0 // c), Aff({}, 0)     # exactly divisible
@@ -1129,6 +1129,16 @@ def divmod_euclid(st, x, c, force=False):
     st.iv[q] = (max(ql, oq[0]), min(qh, oq[1]))
     orr = get_iv(st, r)
     st.iv[r] = (max(0, orr[0]), min(c - 1, orr[1]))
+    for v in (q, r):
+        if v in AFF:
+            a = eval_aff(st, AFF[v])          # the exact affine form bounds the value in this state
+            if a is not None:
+                l0_, h0_ = st.iv[v]
+                l1_, h1_ = max(l0_, a[0]), min(h0_, a[1])
+                if l1_ > h1_:
+                    st.dead = True
+                else:
+                    st.iv[v] = (l1_, h1_)
     _enforce_triples(st, x, 0)
     return q, r
 
